@@ -431,6 +431,19 @@ func c15Render(src string, b map[string]any) (o Outcome) {
 
 const c15ShowA = "{% for x in a %}[{{ x }}]{% endfor %}"
 
+func c15NestedArgFamily() explore.Family {
+	cases := [][2]string{{"a | concat: ARG | join", "b | reverse"}, {"a | reverse | concat: ARG | join", "b | sort"}, {"a | join: ARG", "seps | first"}, {"a | sort | join: ARG", "seps | last"},
+		{"ms | sort: ARG | map: 'k' | join", "keys | first"}, {"ms | reverse | sort: ARG | map: 'k' | join", "keys | last"}, {"a | uniq | concat: ARG | size", "b | compact"}, {"a | compact | map: ARG | size", "keys | first"},
+		{"a | sort | concat: ARG | concat: ARG | join", "b | uniq"}, {"a | reverse | first | plus: ARG", "b | size"}}
+	return explore.Family{Name: "filtered-expressions-as-arguments", Count: int64(len(cases)), Run: func(i int64, r *explore.Rec) {
+		c := cases[i]
+		r.Trace()
+		r.Class("nested-arg")
+		nestedArgLaw(r, c15.eng, "wrong:filtered-expression-as-argument", c[0], c[1], map[string]any{"a": []any{3, 1, 2, 1}, "b": []any{"y", nil, "x", "y"}, "seps": []any{"+", "-"}, "keys": []any{"k", "j"},
+			"ms": []any{map[string]any{"k": 2, "j": 1}, map[string]any{"k": 1, "j": 2}, map[string]any{"j": 0}}})
+	}}
+}
+
 func c15Families(tier string) []explore.Family {
 	if c15.alphas == nil {
 		c15.alphas = c15Alphas()
@@ -813,6 +826,7 @@ func c15Families(tier string) []explore.Family {
 			r.State(fmt.Sprintf("%s:scaled", a.name))
 		}})
 	}
+	fams = append(fams, c15NestedArgFamily())
 	return fams
 }
 
